@@ -197,12 +197,65 @@ def check(case, stats=None):
     return out
 
 
+# ---- a builder call on one side that takes an object of the OTHER side's graph as argument -----------------------------------------
+
+# (joining the original's own un-aliased TABLE object is left out: the join writes the self-join alias onto its argument - the documented side
+# effect - and that argument is a part of the original)
+SHARED_ARG_CALLS = ("join_own_subquery", "from_own_subquery", "where_in_own_subquery", "union_own_subquery")
+
+
+def shared_arg_cases():
+    for cls in prog.CLS_NAMES:
+        for mech in MECHS:
+            for call in SHARED_ARG_CALLS:
+                for side in ("d", "o"):
+                    yield {"family": "shared_arg", "cls": cls, "mech": mech, "call": call, "side": side}
+
+
+def check_shared_arg(case):
+    """q holds an (automatically aliased) subquery and a table; dup is its duplicate. A call on one of them that is handed the subquery / table
+    object of the original must not change what the other renders."""
+    import pypika_tortoise as P
+
+    Q = prog.query_cls(case["cls"])
+    t, u = P.Table("t"), P.Table("u")
+    sub = Q.from_(u).select(u.a, u.b)
+    q = Q.from_(sub).join(t).on(t.a == sub.a).select(sub.b, t.c)
+    try:
+        d = duplicate(q, case["mech"])
+        recv, other = (d, q) if case["side"] == "d" else (q, d)
+        before = snap.render_snapshot(other)
+        c = case["call"]
+        if c == "join_own_subquery":
+            recv.join(sub).on(sub.a == 1)
+        elif c == "from_own_subquery":
+            recv.from_(sub)
+        elif c == "where_in_own_subquery":
+            recv.where(t.a.isin(sub))
+        else:
+            recv.union(sub)
+    except Exception as e:
+        if type(e).__module__.startswith("pypika_tortoise"):
+            return []
+        return [(mksig("shared_arg", "raises", type(e).__name__), repr(e))]
+    after = snap.render_snapshot(other)
+    if after != before:
+        k = snap.diff_keys(after, before)
+        return [(mksig("shared_arg", "other_side_changed", case["call"]), "%s on the %s (argument: an object of the original's graph) changed what the %s renders: %r -> %r" % (
+            case["call"], "duplicate" if case["side"] == "d" else "original", "original" if case["side"] == "d" else "duplicate", before.get(k[0]), after.get(k[0])))]
+    return []
+
+
 def check_case(case):
+    if case.get("family") == "shared_arg":
+        return check_shared_arg(case)
     return check(case)
 
 
 def valid_case(case):
     try:
+        if case.get("family") == "shared_arg":
+            return case in list(shared_arg_cases())
         return case["mech"] in MECHS and isinstance(case["root"], dict) and all(w in ("o", "d") and isinstance(s, list) and len(s) >= 2 for w, s in case["suffix"])
     except (Exception, HarnessError):
         return False
@@ -219,12 +272,18 @@ def nontrivial(case):
 
 def shards(tier, sd):
     n = 8 if tier == "quick" else 32
-    return [(tier, sd * 1000 + k) for k in range(n)] + [("matrix:" + tier, sd * 1000 + 500 + k) for k in range(8)]
+    return [(tier, sd * 1000 + k) for k in range(n)] + [("matrix:" + tier, sd * 1000 + 500 + k) for k in range(8)] + [("shared_arg", 0)]
 
 
 def run_shard(shard):
     tier, sd = shard
     col = Collector()
+    if tier == "shared_arg":
+        for case in shared_arg_cases():
+            col.case(case, True, classes=("shared_arg:" + case["call"],))
+            for sig, detail in check_shared_arg(case):
+                col.violation(sig, case, detail)
+        return col
     if tier.startswith("matrix:"):
         # every (family, method) pair of every menu, a few generated receivers / arguments / mechanisms each
         k = sd % 8
